@@ -485,3 +485,46 @@ def r3_6(rep):
     rep.check(bool(consults), "getter-sign-extension:signedness-never-consulted@Bitfield::codegen",
               "nothing in the generation of bit-field accessors depends on whether the declared type is signed: the getter zero-extends "
               "every field (`int a:3` holding 0b111 reads back as 7; C reads -1)", b.loc(b.root))
+
+
+@RULES.rule("R3.7", "every bit-field of a run — zero-width separators included — reaches unit allocation", floor=6)
+def r3_7(rep):
+    """A `: 0` bit-field ends the current storage unit.  Where clang gives no offsets (class templates) or no padding is added
+    (packed structs) dropping the separator before allocation packs the next field right behind the previous one."""
+    prog = rep.prog
+    b = rep.need(prog.fn("ir::comp::raw_fields_to_fields_and_bitfield_units"), "raw_fields_to_fields_and_bitfield_units")
+    LOSSY = {"filter", "filter_map", "skip", "skip_while", "take", "take_while", "step_by", "retain", "dedup", "nth", "last"}
+    n = 0
+    for c in b.calls(lambda x: x["k"] == "MCall"):
+        rt = prog.types[c["rt"]]
+        if c["name"] not in LOSSY and "RawField" not in rt and "Peekable" not in rt and "Fuse" not in rt and "IntoIter" not in rt:
+            continue
+        n += 1
+        if c["name"] in LOSSY:
+            rep.bad("raw-field-stream:%s" % c["name"], "`%s` on the stream of raw fields can drop fields before units are allocated" % c["name"], b.loc(c))
+        elif c["name"] == "peeking_take_while":
+            clo = strip(c["args"][0]) if c["args"] else {}
+            body = strip(clo.get("body", {}))
+            ok = body.get("k") == "MCall" and body["name"] in ("is_none", "is_some") and strip(body["recv"]).get("name") == "bitfield_width"
+            rep.check(ok, "partition-by-bitfield-ness:%s" % body.get("name"), "the stream is split into runs only by `bitfield_width().is_some()/is_none()` "
+                      "(found %s)" % b.canon(body, 5)[:100], b.loc(c))
+        else:
+            rep.ok("raw-field-stream:%s" % c["name"])
+    rep.check(n >= 4, "stream-ops-seen", "%d operations on the raw field stream" % n)
+    al = rep.need(prog.fn("ir::comp::bitfields_to_allocation_units"), "bitfields_to_allocation_units")
+    loops = [x for x in al.walk() if x["k"] == "For" and "param:raw_bitfields" in al.canon(x["iter"], 4)]
+    if rep.check(len(loops) == 1, "alloc-loop", "one loop over the run's bit-fields", al.loc(al.root)):
+        lp = loops[0]
+        skips = [x for x in al.walk(lp["body"]) if x["k"] == "Continue"]
+        pushes = [c for c in al.calls(lambda x: x["k"] == "MCall" and x["name"] == "push", lp["body"]) if "Bitfield::new" in al.canon(c["args"][0], 4)]
+        rep.check(not skips and len(pushes) == 1 and not [g for g in al.guards(pushes[0]) if g not in al.guards(lp) and not (g[1] == "cond" and al.diverges(al.parent[g[2]["_i"]].get("then", {})) and False)],
+                  "every-bitfield-allocated", "every bit-field of the run is placed in the unit (no skip, unconditional push)", al.loc(lp))
+        rep.check(not re.search(r"::(filter|skip|take|step_by|skip_while|take_while)\(", al.canon(lp["iter"], 6)), "alloc-loop-complete", "the loop covers the whole run", al.loc(lp))
+
+
+@RULES.rule("R3.8", "the struct layout tracker accounts every member and bit-field unit once (shared with C02 R2.4)", floor=30)
+def r3_8(rep):
+    """C03 lists codegen/struct_layout.rs: a plain member that follows a run of bit-fields must still be padded out to the offset clang
+    reports; an independently seeded change that ignored it right after a unit was caught by C02's rule only."""
+    import c02
+    c02.r2_4(rep)
